@@ -117,6 +117,8 @@ class Shapecheck:
             self.entry_assumed[key] = specs.entry_assumptions(fn["path"], names, vals0, st, self, fr0)
             self.entry_assumed[key] += specs.override_args(fn["path"], names, args, st)
             pre_muts = {nm: st.env[root] for (nm, root) in muts}
+            n_facts0 = len(st.lin.facts)
+            n_teq0 = len(st.teq)
             t0 = time.time()
             import signal
 
@@ -129,7 +131,7 @@ class Shapecheck:
             finally:
                 signal.alarm(0)
             res = {"fn": fn, "key": key, "outs": outs, "args": args, "muts": muts, "st0": st, "fr0": fr0,
-                   "pre_muts": pre_muts}
+                   "pre_muts": pre_muts, "n_facts0": n_facts0, "n_teq0": n_teq0}
             # INV of every value leaving the function
             chk = Frame(fn, None)
             for (s, v, c) in outs:
